@@ -89,3 +89,11 @@ package log
 //@ func (*rollingFile).getCurrPath
 //@   on return assert day-file-of-now: called(time.Now) && called((*rollingFile).getPath) && lastarg((*rollingFile).getPath, 0) == rf && lastarg((*rollingFile).getPath, 1) == lastret(time.Now, 0) && result == lastret((*rollingFile).getPath, 0)
 //@   modifies everything
+
+// every record goes to the day file of the moment it is written: the path is computed for every
+// record (year, month and day), and the file is re-opened whenever it differs from the open one
+//@ func (*rollingFile).rotate
+//@   on return assert writes-to-the-day-file-of-now: called((*rollingFile).getCurrPath) && ncalls((*rollingFile).getCurrPath) == 1
+//@   before call os.Stat assert checks-the-day-file-of-now: arg0 == lastret((*rollingFile).getCurrPath, 0)
+//@   before call open assert opens-the-day-file-of-now: arg0 == lastret((*rollingFile).getCurrPath, 0)
+//@   modifies everything
